@@ -11,13 +11,14 @@ using namespace sim;
 
 namespace {
 
-enum OpKind {SET_ORIGIN = 0, SET_END, CAST0, CAST1, CAST2, TRAVERSE, NEXT_BURST, SWITCH_GRID, CAST_ALIAS, REASSIGN_GRID};
-const char * kOpName[] = {"setOriginPoint", "setEndPoint", "cast()", "cast(end)", "cast(origin,end)", "setEndPoint+next()*", "next() burst", "setGridIndexMapping(other grid)", "cast with the caster's own point references", "grid object reassigned in place"};
+enum OpKind {SET_ORIGIN = 0, SET_END, CAST0, CAST1, CAST2, TRAVERSE, NEXT_BURST, SWITCH_GRID, CAST_ALIAS, REASSIGN_GRID, COPY_CASTER};
+const char * kOpName[] = {"setOriginPoint", "setEndPoint", "cast()", "cast(end)", "cast(origin,end)", "setEndPoint+next()*", "next() burst", "setGridIndexMapping(other grid)", "cast with the caster's own point references", "grid object reassigned in place", "continue on a copy of the caster"};
 
 struct Op {int kind = 0; double o[3] = {0, 0, 0}; double e[3] = {0, 0, 0}; int count = 0;};
 
 struct Plan
 {
+  int junk = 0;   // index of the byte every fresh heap allocation is filled with (sim::junkHeap)
   bool isFloat = false; int dim = 2;
   double res = 0.1; double lower[3] = {0, 0, 0}, upper[3] = {1, 1, 1};
   bool defaultCtor = false;   // RayCasting() + setGridIndexMapping instead of RayCasting(mapping)
@@ -42,7 +43,7 @@ Outcome runCaster(const Plan & p, Ctx & c)
   // a second grid over the same extent with another resolution: the caster can be pointed at it and back
   std::unique_ptr<Map> map2(new Map(romea::core::Interval<S, DIM>(lo, up), (S)(p.res * 1.75 <= 1.0 ? p.res * 1.75 : p.res)));   // stays inside the resolution and cell-count domain
   Map * cur = map.get(); bool onSecond = false;
-  std::unique_ptr<RC> rc(p.defaultCtor ? new RC() : new RC(cur));
+  std::unique_ptr<RC> rc(p.defaultCtor ? new RC : new RC(cur));
   if (p.defaultCtor) {rc->setGridIndexMapping(cur); SIM_PROBE("caster_default_constructed_then_given_the_grid");}
   if (p.rangeCtor) {SIM_PROBE("grid_built_from_maximal_range");}
   long double res = 0; size_t ncell[3] = {1, 1, 1}; long double maxCoord = 0;
@@ -234,11 +235,33 @@ Outcome runCaster(const Plan & p, Ctx & c)
         }
       case REASSIGN_GRID: {
           // the grid object the caster points at is given a new value in place (same address, other geometry)
+          if (op.count % 2 == 1 && !p.rangeCtor) {
+            // recentring: same resolution and (normally) the same cell counts, bounds moved by a whole number of cells;
+            // both grid objects are recentred so that one extent keeps describing where points may lie
+            S r1 = map->getCellResolution(), r2 = map2->getCellResolution();
+            S shift = (S)((double)((int)(no % 5) - 2) * 4.0 + 1.0) * r1;
+            for (size_t k = 0; k < DIM; ++k) {lo[(long)k] += shift; up[(long)k] += shift;}
+            *map = Map(romea::core::Interval<S, DIM>(lo, up), r1); *map2 = Map(romea::core::Interval<S, DIM>(lo, up), r2);
+            adoptGrid(); originSet = false; stateConsumed = true; SIM_PROBE("grid_objects_recentred_in_place_same_resolution");
+            c.note(fmt("#%zu grid objects recentred in place (bounds shifted by %.9g)", no, (double)shift)); break;
+          }
           onSecond = !onSecond;
           Map & target = *cur;
           target = onSecond ? Map(romea::core::Interval<S, DIM>(lo, up), (S)(p.res * 1.75 <= 1.0 ? p.res * 1.75 : p.res * 0.8)) : Map(romea::core::Interval<S, DIM>(lo, up), (S)p.res);
           adoptGrid(); originSet = false; stateConsumed = true; SIM_PROBE("grid_object_reassigned_in_place");
           c.note(fmt("#%zu grid object reassigned in place", no)); break;
+        }
+      case COPY_CASTER: {
+          // the history continues on a copy of the caster (copy-constructed, copy-assigned over another caster, or
+          // move-constructed): grid, origin and everything a later cast depends on come along
+          std::unique_ptr<RC> cp;
+          switch (no % 3) {
+            case 0: cp.reset(new RC(*rc)); break;
+            case 1: cp.reset(new RC(onSecond ? map.get() : map2.get())); *cp = *rc; break;
+            default: cp.reset(new RC(std::move(*rc))); break;
+          }
+          rc = std::move(cp); SIM_PROBE("continue_on_a_copy_of_the_caster");
+          c.note(fmt("#%zu continue on a copy of the caster", no)); break;
         }
       case SWITCH_GRID: {
           // the grid is part of what a cast depends on: after the switch everything must be as with a fresh caster on
@@ -338,7 +361,8 @@ struct PropC14
         static const int kinds[] = {SET_ORIGIN, SET_END, CAST1, CAST1, CAST2, CAST2, CAST2, TRAVERSE};
         op.kind = r.pick(kinds);
         if (r.chance(0.04)) {op.kind = SWITCH_GRID;}
-        if (r.chance(0.03)) {op.kind = REASSIGN_GRID;}
+        if (r.chance(0.04)) {op.kind = REASSIGN_GRID; op.count = (int)r.below(2);}
+        if (r.chance(0.04)) {op.kind = COPY_CASTER;}
         if (r.chance(0.08)) {op.kind = CAST_ALIAS; op.count = (int)r.below(4);}
       }
       p.ops.push_back(op);
@@ -346,18 +370,24 @@ struct PropC14
     }
     return p;
   }
-  Plan generate(uint64_t index) const
+  // heap contents are an input of the run like any other: every fresh allocation is filled with a byte chosen by the plan
+  Plan generate(uint64_t index) const {Plan p = generate0(index); p.junk = (int)(mix64(master ^ 0x6a756e6bULL, index) % 5); return p;}
+  Outcome execute(const Plan & p, Ctx & c) const {sim::junkHeap(p.junk); return execute0(p, c);}
+  Json toJson(const Plan & p) const {Json j = toJson0(p); j.set("heap_fill_index", p.junk); return j;}
+  Plan fromJson(const Json & j) const {Plan p = fromJson0(j); if (j.has("heap_fill_index")) {p.junk = (int)j["heap_fill_index"].i();} return p;}
+  std::vector<Plan> simpler(const Plan & p) const {std::vector<Plan> out = simpler0(p); if (p.junk != 0) {Plan q = p; q.junk = 0; out.push_back(q);} return out;}
+  Plan generate0(uint64_t index) const
   {
     if (index < scriptedPlans.size()) {return scriptedPlans[index];}
     return randomPlan(mix64(master, index - scriptedPlans.size()));
   }
-  Outcome execute(const Plan & p, Ctx & c) const
+  Outcome execute0(const Plan & p, Ctx & c) const
   {
     if (p.isFloat) {return p.dim == 2 ? runCaster<float, 2>(p, c) : runCaster<float, 3>(p, c);}
     return p.dim == 2 ? runCaster<double, 2>(p, c) : runCaster<double, 3>(p, c);
   }
 
-  Json toJson(const Plan & p) const
+  Json toJson0(const Plan & p) const
   {
     Json j = Json::object();
     j.set("scalar", p.isFloat ? "float" : "double").set("is_float", p.isFloat).set("dim", p.dim).set("resolution", p.res);
@@ -367,13 +397,13 @@ struct PropC14
     for (auto & o : p.ops) {
       Json e = Json::object(); e.set("op", kOpName[o.kind]).set("kind", o.kind);
       Json a = Json::array(), b = Json::array(); for (int k = 0; k < p.dim; ++k) {a.push(o.o[k]); b.push(o.e[k]);}
-      e.set("origin", a).set("end", b); if (o.kind == NEXT_BURST || o.kind == CAST_ALIAS) {e.set("count", o.count);}
+      e.set("origin", a).set("end", b); if (o.kind == NEXT_BURST || o.kind == CAST_ALIAS || o.kind == REASSIGN_GRID) {e.set("count", o.count);}
       ops.push(e);
     }
     j.set("ops", ops);
     return j;
   }
-  Plan fromJson(const Json & j) const
+  Plan fromJson0(const Json & j) const
   {
     Plan p; p.isFloat = j["is_float"].b(); p.dim = (int)j["dim"].i(); p.res = j["resolution"].d();
     for (int k = 0; k < p.dim; ++k) {p.lower[k] = j["lower"][k].d(); p.upper[k] = j["upper"][k].d();}
@@ -385,7 +415,7 @@ struct PropC14
     }
     return p;
   }
-  std::vector<Plan> simpler(const Plan & p) const
+  std::vector<Plan> simpler0(const Plan & p) const
   {
     std::vector<Plan> out;
     removalCandidates(p.ops, [&](std::vector<Op> v) {Plan q = p; q.ops = std::move(v); out.push_back(q);});
@@ -450,7 +480,8 @@ struct PropC14
     d.set("rule",
       "A plan is (float|double, 2D|3D, resolution in [0.01,1], extent with 1..2000 cells per axis, list of <= 20 ops: setOriginPoint, "
       "setEndPoint, cast(), cast(end), cast(origin,end), manual traversal via next(), bursts of next() that consume or over-run the "
-      "traversal state). Points are drawn inside the extent from classes: generic, on lattice lines, half-way (borders/centres), extreme "
+      "traversal state, switching the caster to a second grid, re-assigning or recentring the grid objects in place, casts through the caster's own "
+      "point references, continuing on a copy of the caster). Points are drawn inside the extent from classes: generic, on lattice lines, half-way (borders/centres), extreme "
       "corners, sharing coordinates with the other point (axis-aligned, coincident), lattice-aligned neighbours, exact diagonals, same or "
       "neighbouring cell. distinct = distinct hash of (type, dim, resolution, per op: kind and sign pattern of the direction); "
       "non-trivial = a checked cast after an op that consumed the traversal state.");
